@@ -46,8 +46,17 @@ pub fn note_created(id: usize) {
         }
     }
 }
+/// Context destructors that have run so far (bumped by the context type of the object adapter) and, for the step in
+/// progress, its value when the step began: a payload destructor that runs after a context destructor of the SAME step
+/// was destroyed too late ("the context ... stays alive until the last such object is gone" - the instance goes first).
+pub static CTX_RELEASES: std::sync::atomic::AtomicUsize = std::sync::atomic::AtomicUsize::new(0);
+pub static STEP_EPOCH: std::sync::atomic::AtomicUsize = std::sync::atomic::AtomicUsize::new(0);
+pub static LATE_PAYLOAD_DROPS: std::sync::atomic::AtomicUsize = std::sync::atomic::AtomicUsize::new(0);
 pub fn note_drop(id: usize) {
     DROPS[id].fetch_add(1, SeqCst);
+    if CTX_RELEASES.load(SeqCst) != STEP_EPOCH.load(SeqCst) {
+        LATE_PAYLOAD_DROPS.fetch_add(1, SeqCst);
+    }
 }
 pub fn drops(id: usize) -> u32 {
     DROPS[id].load(SeqCst)
